@@ -481,7 +481,8 @@ def addPitch {α} (A : Arith α) (st : State) (id : Nat) (tag : List String) : E
       .ok { st with pitchMap := mset st.pitchMap id idx,
                     pitchExt := if ext && !st.pitchExt.contains id then st.pitchExt ++ [id] else st.pitchExt }
   match pitchTokens A st.useExt false tag [] (-1) with
-  | .ok (env, lp) => store st (pitchFinish env lp) false
+  | .ok (env, lp) =>
+    if lp == -1 && env.isEmpty then .error (.input "pitch envelope has no nodes") else store st (pitchFinish env lp) false
   | .error .input => .error (.input "undefined envelope value")
   | .error .invalidArgument =>
     match pitchTokens A st.useExt true tag [] (-1) with
